@@ -2456,3 +2456,53 @@ Proof.
   - apply (restart_ok_norec (mkDS st' ap ap)). exact Z.
   - apply crash_full_or_synced with (i := st_rec st'); auto.
 Qed.
+
+(* ---------------------------------------------------------------------- *)
+(* the name codec: every name the code can write is recognised *)
+
+Lemma ndigits_ge1 : forall fuel base n, (1 <= ndigits fuel base n)%nat.
+Proof. destruct fuel; intros; simpl; [lia|]. destruct (n <? base); lia. Qed.
+
+Lemma ndigits_le : forall fuel base k n,
+  2 <= base -> (1 <= k)%nat -> n < base ^ N.of_nat k -> (ndigits fuel base n <= k)%nat.
+Proof.
+  induction fuel as [|f IH]; intros base k n HB HK HN; simpl; [lia|].
+  destruct (n <? base) eqn:E; [lia|]. apply N.ltb_ge in E.
+  destruct k as [|k]; [lia|]. destruct k as [|k].
+  - change (N.of_nat 1) with 1 in HN. rewrite N.pow_1_r in HN. lia.
+  - apply le_n_S. apply IH; auto; [lia|].
+    replace (N.of_nat (S (S k))) with (N.succ (N.of_nat (S k))) in HN by lia.
+    rewrite N.pow_succ_r' in HN. apply N.div_lt_upper_bound; lia.
+Qed.
+
+Lemma printed_len_dec : forall n, n < 2 ^ 64 -> 1 <= printed_len 10 0 n <= 20.
+Proof.
+  intros n H. unfold printed_len. pose proof (ndigits_ge1 64 10 n).
+  assert (ndigits 64 10 n <= 20)%nat.
+  { apply ndigits_le; [lia | lia |]. eapply N.lt_trans; [exact H|]. reflexivity. }
+  lia.
+Qed.
+
+Lemma printed_len_hex16 : forall n, n < 2 ^ 64 -> printed_len 16 16 n = 16.
+Proof.
+  intros n H. unfold printed_len.
+  assert (ndigits 64 16 n <= 16)%nat.
+  { apply ndigits_le; [lia | lia |]. eapply N.lt_le_trans; [exact H|]. vm_compute. discriminate. }
+  lia.
+Qed.
+
+Lemma temp_names_recognised_proved : forall idx id,
+  idx < 2 ^ 64 -> id < 2 ^ 64 ->
+  final_name_recognised idx = true /\ gen_name_recognised idx id = true /\ recv_name_recognised idx id = true.
+Proof.
+  intros idx id HI HD.
+  pose proof (printed_len_dec id HD) as [D1 D2]. pose proof (printed_len_hex16 idx HI) as X.
+  unfold final_name_recognised, gen_name_recognised, recv_name_recognised, part_ok.
+  change name_index_width with 16. change tmp_id_base with 10. rewrite X.
+  unfold final_re_idx_min, final_re_idx_max, final2_re_idx_min, final2_re_idx_max,
+    gen_re_idx_min, gen_re_idx_max, gen_re_id_min, gen_re_id_max,
+    recv_re_idx_min, recv_re_idx_max, recv_re_id_min, recv_re_id_max.
+  assert (L1 : 1 <=? printed_len 10 0 id = true) by (apply N.leb_le; lia).
+  assert (L2 : printed_len 10 0 id <=? 18446744073709551616 = true) by (apply N.leb_le; lia).
+  rewrite L1, L2. repeat split; reflexivity.
+Qed.
